@@ -548,10 +548,9 @@ def common(ctx, prop, fam, design, deviations, sim_kinds):
     futs = run_models(ctx, design, deviations)
     specs = fam(ctx)
     runs = execute(specs)
-    if not ctx.quick:
-        # thorough: every source line of arbiter.py is an injection point for a share of the random runs
-        extra = [s for s in specs if s["sched"]["kind"] == "random"][:1500]
-        runs += execute(extra, line_points=True)
+    # every source line of arbiter.py is an injection point for a share of the random runs
+    extra = [s for s in specs if s["sched"]["kind"] == "random"][:(50 if ctx.quick else 1500)]
+    runs += execute(extra, line_points=True)
     ctx.coverage["simos_runs"] = len(runs)
     ctx.coverage["simos_wall_s"] = round(time.time() - t0, 1)
     for tr in conformance(ctx, sim_kinds, 120 if ctx.quick else 1500):
